@@ -179,6 +179,7 @@ func build(s scn, base string) (*built, error) {
 		sp.Tmpdir = root + "/tmp"
 	case "cross":
 		x := fmt.Sprintf("/dev/shm/verif-c17-%d-%d", os.Getpid(), n)
+		_ = os.RemoveAll(x) // a stale directory of a killed earlier run with the same pid
 		if err := os.MkdirAll(x+"/X", 0o755); err != nil {
 			return nil, err
 		}
